@@ -277,7 +277,58 @@ def c16(run):
             "the concatenated exclude filters, the resolved output directory, rejection")
 
 
+RUNS_CFG = """CONSTANT Dev <- NoDev
+CONSTANT InputMenu <- MCInputs
+CONSTANT MaxInputs = {maxin}
+CONSTANT Spellings <- MCSpellings
+CONSTANT Cwds <- MCCwds
+CONSTANT Locations <- MCLocations
+CONSTANT Perms <- MCPerms
+CONSTANT HashSeeds <- MCHashSeeds
+CONSTANT GenInputs <- MCGenInputs
+CONSTANT ExtraMenu <- MCExtras
+INIT Init
+NEXT Next
+INVARIANT C17_FunctionOfInputAndSettings
+INVARIANT C17_SharedSettingsUntouched
+INVARIANT Emit
+"""
+
+
+def c17(run):
+    import runsh
+    q = run.tier == "quick"
+    res = lib.run_tlc("MC_Runs", RUNS_CFG.format(maxin=3), tags=("BEH", "GEN"))
+    run.add_tlc("MC_Runs(inputs<=3)", res)
+    runsh.replay_c17(run, res.lines.get("BEH", []), run.seed, limit=350 if q else 6000)
+    run.assumptions += ["two directory inputs in one run write the same <out>/index.rst: colliding output paths are out of scope",
+                        "moved trees keep their leaf name; listing order is imposed through os.walk"]
+    return ("TLC enumerates run descriptors (spelling of the input path rel/abs/trailing slash/'.', working directory, "
+            "absolute location of the tree, listing permutation, hash seed, repeat, prefix) x command lines of 1-3 inputs "
+            "(one directory, single files before/after) and checks on the main()-loop machine that what a page is made of "
+            "depends on input and settings only and that the shared Settings object is never modified; a seeded sample of "
+            "the behaviours is executed for real (one OS process each: cwd, PYTHONHASHSEED, os.walk order imposed) and every "
+            "generated file is compared byte for byte with the canonical run of each input alone")
+
+
+def c19(run):
+    import runsh
+    res = lib.run_tlc("MC_Runs", RUNS_CFG.format(maxin=1).replace("INVARIANT Emit\n", ""), tags=("BEH", "GEN"))
+    run.add_tlc("MC_Runs(C19_Argv assumption + main loop)", res)
+    cases = res.lines["GEN"][0]
+    runsh.replay_c19(run, cases)
+    run.assumptions += ["arguments containing ';' (CMake list splitting) are excluded",
+                        "CMake 3.25 script mode (cmake -P) stands for the configure step"]
+    return ("TLC checks C19_Argv (the argument vector cminx_gen_rst builds reads back as input, -o output, the extra "
+            "arguments verbatim, -r iff directory) for every input kind x extra-argument list of the menu; each case is "
+            "run through the real cmake/cminx.cmake with CMINX_EXECUTABLE bound to a recording shim that runs the "
+            "working-tree CMinx: compared are the logged argv, fatal failure of cmake iff CMinx fails (and the script not "
+            "continuing), and the output tree against the direct command-line run")
+
+
 CHECKS = {p: agg_property for p in AGG}
+CHECKS["C17"] = c17
+CHECKS["C19"] = c19
 CHECKS["C16"] = c16
 CHECKS["C12"] = c12
 for _p in ("C13", "C14", "C15", "C18"):
